@@ -223,22 +223,23 @@ func finish(ctx *Ctx, r *Result, started time.Time, seed int64) int {
 		"wall_s":      wall,
 		"violations":  len(bad),
 		"coverage": map[string]any{
-			"explanation":         r.Explanation,
-			"not_decided":         r.NotDecided,
-			"obligations":         len(r.Obls),
-			"discharged":          discharged,
-			"evaluations":         inspected,
-			"distinct_nontrivial": len(distinct),
-			"rule":                "an obligation is one rule instance keyed by rule id + construct (function, path, call site, table); it is non-trivial when deciding it inspected at least one path, site or instruction of /repo's current source; evaluations = paths/sites/instructions inspected",
-			"samples":             oblSamples,
-			"functions":           fns,
-			"paths":               r.Paths,
-			"call_sites":          r.CallSites,
-			"rules":               ruleList,
-			"files_analysed":      ctx.P.Files,
-			"trusted_base":        r.Trusted,
-			"checker_cmd":         fmt.Sprintf("bin/corscheck -property %s -tier %s", r.Property, ctx.Tier),
-			"exhaustive":          true,
+			"explanation":                   r.Explanation,
+			"not_decided":                   r.NotDecided,
+			"obligations":                   len(r.Obls),
+			"discharged":                    discharged,
+			"evaluations":                   inspected,
+			"distinct_nontrivial":           len(distinct),
+			"rule":                          "an obligation is one rule instance keyed by rule id + construct (function, path, call site, table); it is non-trivial when deciding it inspected at least one path, site or instruction of /repo's current source; evaluations = paths/sites/instructions inspected",
+			"samples":                       oblSamples,
+			"functions":                     fns,
+			"paths":                         r.Paths,
+			"call_sites":                    r.CallSites,
+			"rules":                         ruleList,
+			"files_analysed":                ctx.P.Files,
+			"identifiers_resolved_by_shape": renameStrings(ctx.P.Renames),
+			"trusted_base":                  r.Trusted,
+			"checker_cmd":                   fmt.Sprintf("bin/corscheck -property %s -tier %s", r.Property, ctx.Tier),
+			"exhaustive":                    true,
 		},
 		"assumptions": r.Trusted,
 	}
@@ -247,6 +248,9 @@ func finish(ctx *Ctx, r *Result, started time.Time, seed int64) int {
 	if err := os.WriteFile(filepath.Join(ctx.VerifDir, "evidence", r.Property+".json"), b, 0o644); err != nil {
 		fmt.Println("cannot write evidence:", err)
 		return 2
+	}
+	for _, rn := range ctx.P.Renames {
+		fmt.Printf("%s note: anchor resolved by shape: %s\n", r.Property, rn)
 	}
 	if len(bad) == 0 {
 		fmt.Printf("%s PASS obligations=%d discharged=%d functions=%d paths=%d wall=%.1fs\n", r.Property, len(r.Obls), discharged, len(fns), r.Paths, wall)
@@ -305,4 +309,12 @@ func (ctx *Ctx) CI1() string {
 	}
 	ctx.cache["ci1"] = res
 	return res
+}
+
+func renameStrings(rs []Renaming) []string {
+	out := []string{}
+	for _, r := range rs {
+		out = append(out, r.String())
+	}
+	return out
 }
